@@ -239,6 +239,7 @@ func genC17(c *Ctx) {
 	c17UniformInterleavings(c)
 	c17UniformAdversarial(c)
 	c17TernarySessions(c)
+	c17SparseBig(c)
 	c17GaussSessions(c)
 	c17MixedSessions(c)
 	c17QP(c)
